@@ -176,6 +176,8 @@ ITEMS = [
     ("NULL", "", "-999.2512345678", "second NULL"),
     ("STOP", "M", "250000.123456789", ""),
     ("T", "", "x", ""),
+    ("LNG", "u", "v" * 300, "d" * 300),
+    ("MNEMONIC_LONGER_THAN_ANY_WIDTH_0123456789", "", "1", "x"),
 ]
 
 
